@@ -89,5 +89,6 @@ def run(ck: Checker):
     ck.floor('C15.FOLD', 6)
     # values flow only through operators
     ck.rule('C01.APPLY', 'shape of the evaluators (shared with C01)')
-    apply_rules(ck, 'C01.APPLY', covered_by='C15.FOLD (fold of the evaluators over model circuits)')
+    with ck.soft('C15.FOLD / C15.HIST (evaluators folded over model circuits and inside histories)'):
+        apply_rules(ck, 'C01.APPLY', covered_by='C15.FOLD (fold of the evaluators over model circuits)')
     ck.assume('traversal order/termination of the explicit-stack evaluator is not decided here (C01/C20 undecided clause)')
